@@ -72,20 +72,31 @@ func runC07(args []string) error {
 	}
 	// one world event per sandbox variant (occ = are the places a leaving path would land on occupied by canaries),
 	// followed by the requests that ran in that variant
-	for occ := 0; occ <= 1; occ++ {
+	// one world event per sandbox variant, followed by the requests that ran in that variant.  Variants: occ = are the
+	// places a leaving path would land on occupied by canaries; ur = is the requester confined to its own file root
+	for _, v := range [][2]int{{0, 0}, {1, 0}, {0, 1}} {
 		first := true
 		for i, r := range results {
-			if intOf(reqs[i]["occ"]) != occ {
+			if intOf(reqs[i]["occ"]) != v[0] || intOf(reqs[i]["ur"]) != v[1] {
 				continue
 			}
 			if first {
 				first = false
-				lg.Emit(map[string]any{"op": "world", "run": 0, "occ": occ, "mode": "c07", "ignore": "default", "snap": r["_snap0"],
-					"rootp": compsJSON(toB([]string{"l1", "l2", "l3", "W", "root"})), "usersp": compsJSON(toB([]string{"l1", "l2", "l3", "W", "config", "Users"}))})
+				rootName := "root"
+				if v[1] == 1 {
+					rootName = "userroot"
+				}
+				lg.Emit(map[string]any{"op": "world", "run": 0, "occ": v[0], "ur": v[1], "mode": "c07", "ignore": "default", "snap": r["_snap0"],
+					"rootp": compsJSON(toB([]string{"l1", "l2", "l3", "W", rootName})), "usersp": compsJSON(toB([]string{"l1", "l2", "l3", "W", "config", "Users"}))})
 			}
 			delete(r, "_snap0")
 			r["run"] = i + 1
 			lg.Emit(r)
+		}
+	}
+	for i := range reqs {
+		if o, u := intOf(reqs[i]["occ"]), intOf(reqs[i]["ur"]); u == 1 && o != 0 {
+			return fmt.Errorf("request %d: variant occ=%d ur=%d is not defined", i+1, o, u)
 		}
 	}
 	return lg.Close()
@@ -107,12 +118,13 @@ func runC07Request(world map[string]any, rq map[string]any) (map[string]any, err
 	occ := intOf(rq["occ"])
 	acquireWork()
 	defer releaseWork()
-	sb, err := newSandbox(world, true)
+	ur := intOf(rq["ur"])
+	sb, err := newSandboxUR(world, true, ur == 1)
 	if err != nil {
 		return nil, err
 	}
 	defer sb.close()
-	if occ == 1 {
+	if occ == 1 && ur == 0 {
 		body := []byte("landing " + Marker + "\n")
 		d := sb.w.Dir
 		for _, rel := range []string{"x", "abs", "config/x.yaml", "../x", "../../x", "root.bak/n", "config/Users-x/a.yaml"} {
@@ -140,8 +152,8 @@ func runC07Request(world map[string]any, rq map[string]any) (map[string]any, err
 	}
 	// every sandbox of a variant must start identical (the log carries one world event per variant)
 	snap0Mu.Lock()
-	if k0, ok := snap0Key[occ]; !ok {
-		snap0Key[occ] = keyStr
+	if k0, ok := snap0Key[occ+2*ur]; !ok {
+		snap0Key[occ+2*ur] = keyStr
 	} else if k0 != keyStr {
 		snap0Mu.Unlock()
 		return nil, fmt.Errorf("sandboxes of variant %d differ initially", occ)
